@@ -580,6 +580,17 @@ def run(case):
             "counters": counters, "nontrivial": nontrivial}
 
 
+def no_glyph_draws_anything(glyphs, round_tolerance=None):
+    """Every contour of every glyph collapses to one point in the charstring: its points all
+    coincide (as written: rounded to integers unless a rounding tolerance below 1/2 keeps the
+    fractions)."""
+    def key(p):
+        if round_tolerance is not None and round_tolerance < 0.5:
+            return (float(p[0]), float(p[1]))
+        return (R.otround(R.fr(p[0])), R.otround(R.fr(p[1])))
+    return all(len({key(p) for p in c}) <= 1 for g in glyphs for c in g["contours"])
+
+
 def classify(v, case):
     tr = v["detail"].get("trace", "") if v["mech"] == "unexpected_exception" else ""
     if ("AttributeError" in tr and "charset" in tr and case["cffVersion"] == 1
@@ -595,8 +606,9 @@ def classify(v, case):
             return "cffsubr_predefined_charset_unsavable"
     if v["mech"] == "unexpected_exception" and "tx:" in v["detail"].get("trace", ""):
         if (case["cffVersion"] == 2 and case["optimizeCFF"] >= 2
-                and not any(len(c) > 1 for g in case["ufo"]["glyphs"] for c in g["contours"])):
-            # no glyph of the font has a path: no contours at all, or only single-point
-            # contours, which tx discards ("moveto preceeds closepath")
+                and no_glyph_draws_anything(case["ufo"]["glyphs"], case.get("roundTolerance"))):
+            # no glyph of the font has a path: no contours at all, or only contours whose
+            # points all coincide (single points, zero-length lines), which tx discards
+            # ("moveto preceeds closepath")
             return "cffsubr_cff2_all_glyphs_empty"
     return None
